@@ -459,7 +459,8 @@ SIG_SWC32 = 'read_swc/default-precision=32/node-ids>=2**31/ids-wrap-negative'
 
 
 def signature(op, pre=None, err=None):
-    """Signatures of the recorded genuine defects (known_findings/C01.json): call site / failure kind / input class."""
+    """Signatures of the recorded genuine defects (known_findings/C01.json): call site / failure kind / input class.  All three
+    are repaired in navis (status `fixed`: nothing is suppressed); a failure carrying one of them means the defect is back."""
     k = op['op']
     inner = op.get('inner', {}) if k == 'nl_map' else op
     if inner.get('op') == 'prune_twigs' and inner.get('exact') and inner.get('mask') is not None and pre and pre.get('zero_edge'):
@@ -523,8 +524,6 @@ def _check_state(ctx, y, case, step, op, pre=None):
     wire = G.wire_neuron(y)
     w = ctx.ask('f.wf ' + wire)
     ok1 = ctx.oracle(w.split()[0] == '1', f'{what}: node table is not a well-formed forest (duplicate id / dangling parent / cycle)', case, signature=sig)
-    if not ok1 and sig == SIG_SWC32:
-        return False
     ok2 = ctx.oracle(w.split()[1] == '1' and not notype, f'{what}: root/end/branch/slab labels do not match the topology', case,
                      signature=sig or 'labels')
     # soma exists: the Lean checker `somaOKB` on the reported soma and the implementation's table
@@ -818,21 +817,21 @@ def relabel(r, rows, labeling, order):
 
 
 def corpus():
-    """Hand-written cases run first on every run: the recorded defects (printed as KNOWN-FINDING) and the inputs two seeded
+    """Hand-written cases run first on every run: the inputs of the three repaired defects (regression guard) and the inputs two seeded
     changes needed (so that their detection does not depend on the PRNG seed)."""
     def chain(coords, ids=None, r=None):
         ids = ids or list(range(1, len(coords) + 1))
         return [dict(id=i, parent=(ids[k - 1] if k else -1), x=c[0], y=c[1], z=c[2], **({'r': r[k]} if r else {}))
                 for k, (i, c) in enumerate(zip(ids, coords))]
     meta = dict(shape='corpus', labeling='seq', order='parent_first')
-    # 1. prune_twigs(exact, mask): new tip on a zero-length edge, exact tie -> NaN coordinates (open finding)
+    # 1. prune_twigs(exact, mask): new tip on a zero-length edge, exact tie -> NaN coordinates (repaired)
     yield dict(stream='hist', rows=chain([(0, 0, 0), (10, 0, 0), (10, 0, 0), (12, 0, 0), (15, 0, 0)]), seed=1, nops=1, meta=dict(meta, n=5),
                ops=[dict(op='prune_twigs', size=5, recursive=False, exact=True, mask=[3, 4, 5], inplace=False)])
-    # 2. read_swc, default precision, ids >= 2**31 (open finding)
+    # 2. read_swc, default precision, ids >= 2**31 (ids were wrapped to int32; repaired: widened)
     big = 2 ** 31 + 7
     yield dict(stream='construct', rows=chain([(0, 0, 0), (1, 0, 0), (2, 0, 0)], ids=[big, big + 1, big + 2]), how='swc_text', seed=3, nops=0,
                meta=dict(meta, n=3, labeling='large'), precision_force=32)
-    # 3. read_swc (int32 ids) -> smooth_skeleton (node_id becomes int64) -> reroot in place (open finding)
+    # 3. read_swc (int32 ids) -> smooth_skeleton (node_id becomes int64) -> reroot in place (raised half-way; repaired)
     yield dict(stream='hist', rows=chain([(0, 0, 0), (3, 0, 0), (6, 0, 0), (6, 4, 0)]), seed=2, nops=3, meta=dict(meta, n=4),
                ops=[dict(op='swc_roundtrip', seed=2, inplace=False), dict(op='smooth', window=3, to_smooth=['x', 'y', 'z'], inplace=False),
                     dict(op='reroot', r=3, inplace=True)])
@@ -1022,8 +1021,6 @@ def run_construct(ctx, case):
         x = x[0]
     step0 = dict(op='construct:' + case['how'])
     pre = dict(big_ids=max(rw['id'] for rw in case['rows']) >= 2 ** 31 - 1, precision=case.get('precision', 32))
-    if signature(step0, pre) == SIG_SWC32:
-        exp = None      # ids ≥ 2³¹ wrap under the default 32-bit precision (recorded defect): only the oracle, with its signature
     if exp is not None and exp[0] == 'same':
         model = ctx.ask('f.classify ' + exp[1])
         ctx.corr(G.topo_neuron(x), model, f"construction ({case['how']}): node table vs Lean classify of the input table", case)
